@@ -54,25 +54,27 @@ def oracle(line, size, inc):
         return "read fill beyond the read buffer size"
     if rb + rbs > pos:
         return "read window [%d,+%d) outside the allocated front region (pos=%d)" % (rb, rbs, pos)
+    if ph == "c100":
+        return None
     if (ph in ("line", "hdrs", "foot") or (ph == "body" and d.get("ev") == "1")) and rbo >= rbs:
         return "connection waits for data with a full read buffer"
     return None
 
 
-def mk_case(ps, inc, lvl, pieces, pat=None, fill=None):
-    return ["crinit %d %d %d%s" % (ps, inc, lvl, (" " + ",".join(map(str, pat))) if pat else ""),
+def mk_case(ps, inc, lvl, pieces, pat=None, fill=None, beh=None):
+    return ["crinit %d %d %d%s" % (ps, inc, lvl, (" " + (",".join(map(str, pat)) if pat else "-") + ((" " + beh) if beh else "")) if (pat or beh) else ""),
             "crfill %s" % ("off" if fill is None else str(fill))] + ["crfeed " + hx(p) for p in pieces]
 
 
 FILLS = [10, 13, 48, 0, 90, 58, 32]     # LF CR '0' NUL 'Z' ':' SP — what stale bytes behind the fill level could look like
 
 
-def twin(ps, inc, lvl, pieces, pat, rng):
+def twin(ps, inc, lvl, pieces, pat, rng, beh=None):
     """the same script twice with two different bytes behind the fill level: the outcomes must not differ"""
     f1 = 10
     f2 = rng.choice([90, 13, 48, 0])
-    a = mk_case(ps, inc, lvl, pieces, pat, f1)
-    return a + mk_case(ps, inc, lvl, pieces, pat, f2), len(a)
+    a = mk_case(ps, inc, lvl, pieces, pat, f1, beh)
+    return a + mk_case(ps, inc, lvl, pieces, pat, f2, beh), len(a)
 
 
 LOOKED_UP = [b"Connection", b"Host", b"Content-Length", b"Transfer-Encoding", b"Expect", b"Cookie", b"Authorization", b"Upgrade"]
@@ -120,6 +122,8 @@ def body_request(rng, ps):
     data = bytes((97 + i % 26) for i in range(size))
     ver = rng.choice([b"1.1", b"1.1", b"1.0"])
     conn = rng.choice([b"", b"", b"Connection: close\r\n", b"Connection: Keep-Alive\r\n"])
+    if rng.random() < 0.25:
+        conn += rng.choice([b"Expect: 100-continue\r\n", b"expect: 100-Continue\r\n", b"Expect: 200-ok\r\n"])
     if rng.random() < 0.5:
         req = b"POST /u HTTP/" + ver + b"\r\nHost: h\r\n" + conn + b"Content-Length: %d\r\n\r\n" % size + data
     else:
@@ -200,12 +204,16 @@ def gen_cases(ctx, n_random):
             for _ in range(rng.choice([0, 0, 1, 3])):
                 pieces.append(b"")
         pieces += [b""] * rng.choice([0, 2, 6])
-        pat = rng.choice([None, None, [1], [0, 5], [3, 0, 0, 100], [ps], [7, 1000000], [0]])
+        pat = rng.choice([None, None, [1], [0, 5], [3, 0, 0, 100], [ps], [7, 1000000], [0], [5, "n"], ["n"], [1000000, 2, "n", 0]])
+        # what the access handler does: first call go on / early reply / MHD_NO, final call reply / MHD_NO
+        beh = rng.choice([None, None, None, "cr", "rr", "nr", "cn"])
+        if beh:
+            fam += "+handler:" + beh
         if rng.random() < 0.5:
-            c, half = twin(ps, rng.choice(incs), rng.randint(-3, 3), pieces, pat, rng)
+            c, half = twin(ps, rng.choice(incs), rng.randint(-3, 3), pieces, pat, rng, beh)
             cases.append((c, {"fam": fam, "how": how, "half": half}))
         else:
-            cases.append((mk_case(ps, rng.choice(incs), rng.randint(-3, 3), pieces, pat, rng.choice(FILLS)), {"fam": fam, "how": how}))
+            cases.append((mk_case(ps, rng.choice(incs), rng.randint(-3, 3), pieces, pat, rng.choice(FILLS), beh), {"fam": fam, "how": how}))
     for i in range(n_random):
         ps = rng.choice(pools)
         r = rng.random()
@@ -284,6 +292,8 @@ def run_batch(harness, driver, batch, failures, stats):
             d = kv(h)
             if prev is not None and d.get("ph") in ("line", "hdrs") and prev.get("ph") in ("body", "foot"):
                 stats["resets(next request)"] += 1
+            if d.get("ph") == "c100":
+                stats["continue_sending"] = stats.get("continue_sending", 0) + 1
             if d.get("ph") == "body" and d.get("ev") == "0":
                 stats["body_process_only"] += 1
             if prev is not None and d.get("ph") in ("line", "hdrs", "body", "foot"):
